@@ -595,8 +595,13 @@ def truth_table_implies(test: ast.AST, truth: bool, required_atoms: List[str]) -
     required_atoms (source text of a sub-expression) is true.  Atoms are the maximal
     non-boolean sub-expressions of test; and/or/not are interpreted."""
     atoms: List[str] = []
+    env: Dict[str, ast.AST] = {}
+
+    def opaque(v) -> bool:
+        return isinstance(v, (ast.Name, ast.Attribute)) and not (isinstance(v, ast.Name) and v.id in env)
 
     def collect(n):
+        n = _subst(n, env) if env else n
         if isinstance(n, ast.BoolOp):
             for v in n.values:
                 collect(v)
@@ -768,8 +773,13 @@ def predicate_table(fn: ast.AST) -> Tuple[List[str], Dict[Tuple[bool, ...], obje
     """The function as a decision procedure over its atoms: (atoms, {assignment: True/False/('value', text)/None}).  Only ifs, returns and
     a docstring may occur (anything else: AnalysisError - the caller defers).  Evaluation short-circuits like Python does."""
     atoms: List[str] = []
+    senv: Dict[str, ast.AST] = {}
+
+    def opaque(v) -> bool:
+        return isinstance(v, (ast.Name, ast.Attribute)) and not (isinstance(v, ast.Name) and v.id in senv)
 
     def collect(n):
+        n = _subst(n, senv) if senv else n
         if isinstance(n, ast.BoolOp):
             for v in n.values:
                 collect(v)
@@ -793,8 +803,10 @@ def predicate_table(fn: ast.AST) -> Tuple[List[str], Dict[Tuple[bool, ...], obje
                 scan(st.body)
                 scan(st.orelse)
             elif isinstance(st, ast.Return):
-                if st.value is not None:
+                if st.value is not None and not opaque(st.value):
                     collect(st.value)
+            elif isinstance(st, ast.Assign) and len(st.targets) == 1 and isinstance(st.targets[0], ast.Name) and st.targets[0].id not in senv:
+                senv[st.targets[0].id] = _subst(st.value, senv)       # a local that names a sub-expression of the tests
             else:
                 raise AnalysisError(f"{getattr(fn, 'name', '?')} is not a pure decision procedure (statement `{ast.unparse(st)[:50]}`)")
 
@@ -802,23 +814,26 @@ def predicate_table(fn: ast.AST) -> Tuple[List[str], Dict[Tuple[bool, ...], obje
     if len(atoms) > 10:
         raise AnalysisError(f"{getattr(fn, 'name', '?')}: too many atoms for a truth table")
 
-    def ev(n, env):
+    def ev(n, env_):
+        return ev0(_subst(n, senv) if senv else n, env_)
+
+    def ev0(n, env):
         if isinstance(n, ast.BoolOp):
             if isinstance(n.op, ast.And):
                 r = True
                 for v in n.values:
-                    r = ev(v, env)
+                    r = ev0(v, env)
                     if not r:
                         return r
                 return r
             r = False
             for v in n.values:
-                r = ev(v, env)
+                r = ev0(v, env)
                 if r:
                     return r
             return r
         if isinstance(n, ast.UnaryOp) and isinstance(n.op, ast.Not):
-            return not ev(n.operand, env)
+            return not ev0(n.operand, env)
         if isinstance(n, ast.Constant) and isinstance(n.value, bool):
             return n.value
         a, pol = canon_atom(n)
@@ -834,7 +849,9 @@ def predicate_table(fn: ast.AST) -> Tuple[List[str], Dict[Tuple[bool, ...], obje
                 if r is not _Ret:
                     return r
             elif isinstance(st, ast.Return):
-                return None if st.value is None else ev(st.value, env)
+                if st.value is None:
+                    return None
+                return ("value", ast.unparse(st.value)) if opaque(st.value) else ev(st.value, env)
         return _Ret
 
     import itertools
